@@ -38,6 +38,8 @@ var evaluateCmd = &cobra.Command{
 		identContent := cmd_util.ReadCocaFile("identify.json")
 
 		_ = json.Unmarshal(identContent, &identifiers)
+		// the decoder fills what is already there: start from an empty model
+		parsedDeps = nil
 		_ = json.Unmarshal(file, &parsedDeps)
 
 		result := analyser.Analysis(parsedDeps, identifiers)
